@@ -1260,6 +1260,9 @@ func c04(c *Ctx) {
 	if workers > 4 {
 		workers = 4
 	}
+	if c.Shards > 1 {
+		workers = 2 // shards already run in parallel
+	}
 	results := parallelMap(len(sel), workers, func(i int) c04RunRes {
 		return c04Behaviour(c, sel[i], known[sel[i]])
 	})
